@@ -120,6 +120,12 @@ func registerUserFuncs() {
 			}
 			if len(args) > 0 {
 				*buf = args[0]
+				// a literal argument arrives as a pointer into the parsed tree:
+				// the harness's getter hands out its own copy, never tree memory
+				if p, ok := args[0].(*[]byte); ok && p != nil {
+					b := append([]byte(nil), *p...)
+					*buf = &b
+				}
 			} else {
 				*buf = nil
 			}
